@@ -6,7 +6,7 @@ import ast
 from ..core import terms as T
 from ..core import asthelp as H
 from ..core.interp import Interp, assume
-from ..core.progdb import AnalysisError, lit
+from ..core.progdb import AnalysisError, lit, call_name
 from ..core.values import Frame, Obj, PyTuple, to_term
 from ..specs.merge import check_term
 from ..specs.endcoherence import check_end_coherence
@@ -30,6 +30,21 @@ def _tt(pred, base, col, vals):
         return None
 
 
+def find_per_rank_trim(m):
+    """qualified name of the per-rank trim: the callee of Trace._filter_irrelevant_gpu_kernels (nested closure or method) that applies both side filters"""
+    outer = m.func("Trace._filter_irrelevant_gpu_kernels")
+    q2 = None
+    for c_ in H.calls(outer, nested=False):
+        nm_ = call_name(c_).split(".")[-1]
+        for q_ in (f"Trace._filter_irrelevant_gpu_kernels.{nm_}", f"Trace.{nm_}", nm_):
+            d_ = m.functions.get(q_)
+            if d_ is not None and d_ is not outer and {"CPUOperatorFilter", "GPUKernelFilter"} <= {H.name_id(x.func) for x in ast.walk(d_) if isinstance(x, ast.Call)}:
+                q2 = q_
+    if q2 is None:
+        raise AnalysisError("_filter_irrelevant_gpu_kernels: no per-rank callee applying CPUOperatorFilter and GPUKernelFilter was found")
+    return q2
+
+
 def check_trim(db, chk, rule: str) -> None:
     """per-rank trimming of the trailing profiler step (also C02: the links written at parse time survive the trim -
     a device activity is kept iff its launch call is kept)"""
@@ -37,15 +52,33 @@ def check_trim(db, chk, rule: str) -> None:
     st = db.mod("hta.common.trace_symbol_table")
     # ------------------------------------------------------------------ trimming, per rank
     TR = ("param", "TR")
-    ref2 = f"{TM}:Trace._filter_irrelevant_gpu_kernels.filter_gpu_kernels_for_one_rank"
-    f2 = m.func("Trace._filter_irrelevant_gpu_kernels.filter_gpu_kernels_for_one_rank")
+    # the per-rank trim is found by ROLE: the callee of _filter_irrelevant_gpu_kernels (nested closure or method) that applies both side filters
+    q2 = find_per_rank_trim(m)
+    ref2 = f"{TM}:{q2}"
+    f2 = m.func(q2)
     where2 = m.loc(f2)
     chk.analysed_add("functions", ref2)
     STEPS = T.P("STEPS")
     for inc in (False, True):
         I = Interp(db, decide=assume(("hascol", TR, "stream")))
-        runs = I.explore(ref2, lambda I: {"trace_df": Frame(TR)},
-                         lambda I: {"self": Obj("self", attrs={"symbol_table": Obj("symtab", cls=(st, "TraceSymbolTable"))}), "profiler_steps": STEPS, "include_last_profiler_step": inc})
+        self_obj = lambda: Obj("self", cls=(m, "Trace"), attrs={"symbol_table": Obj("symtab", cls=(st, "TraceSymbolTable"))})
+
+        def role_args(I, inc=inc):
+            out = {}
+            for p_ in H.param_names(f2):
+                if p_ == "self":
+                    out[p_] = self_obj()
+                elif "step" in p_ and "include" not in p_:
+                    out[p_] = STEPS
+                elif "include" in p_ or "last" in p_:
+                    out[p_] = inc
+                elif "df" in p_ or "trace" in p_:
+                    out[p_] = Frame(TR)
+                else:
+                    raise AnalysisError(f"{q2}: role of parameter {p_} not recognised")
+            return out
+        runs = I.explore(ref2, role_args,
+                         lambda I: {"self": self_obj(), "profiler_steps": STEPS, "include_last_profiler_step": inc})
         runs = [r for r in runs if r.raised is None and isinstance(r.ret, Frame)]
         tag = f"[include_last={inc}]"
         if len(runs) != 1 or runs[0].ret.base[0] != "concat":
@@ -141,7 +174,7 @@ def check_trim_guard(db, chk, rule: str) -> None:
     calls = []
 
     def hook(I, name, pos, kw, node):
-        if name == "filter_gpu_kernels_for_one_rank":
+        if name.split(".")[-1] == find_per_rank_trim(m).split(".")[-1]:
             calls.append(I.run)
             return Frame(("trimmed",))
         return NotImplemented
@@ -189,12 +222,19 @@ def check_step_set(db, chk, rule: str) -> None:
     m = db.mod(TM)
     f = m.func("Trace._filter_irrelevant_gpu_kernels")
     where = m.loc(f)
-    inner = m.func("Trace._filter_irrelevant_gpu_kernels.filter_gpu_kernels_for_one_rank")
-    # the closure variable the per-rank helper tests names against
+    inner = m.func(find_per_rank_trim(m))
+    # the closure variable (or parameter) the per-rank helper tests names against
     cand = set()
     for n in ast.walk(inner):
         if isinstance(n, ast.Call) and isinstance(n.func, ast.Attribute) and n.func.attr == "isin" and n.args and isinstance(n.args[0], ast.Name):
             cand.add(n.args[0].id)
+    # a parameter of the helper: follow it to the argument passed by the caller
+    inner_params = H.param_names(inner)
+    if cand & set(inner_params):
+        for c_ in H.calls(f, nested=False):
+            if call_name(c_).split(".")[-1] == inner.name:
+                b_ = H.bind_call(inner, c_)
+                cand = {(H.name_id(b_.get(x)) or x) if x in inner_params else x for x in cand}
     defs = [(t, v) for t, v, s_ in H.assignments(f, nested=False) if H.name_id(t) in cand]
     if len(defs) != 1:
         chk.ob(rule, "the step-id set of the trim has one definition", None, where, found={"candidates": sorted(cand), "definitions": len(defs)})
@@ -256,7 +296,7 @@ def run(db, chk) -> None:
             if T.as_cases(cases) is not None:
                 cases = ("cases", tuple(T.as_cases(cases)))
             if cases[0] != "cases" or len(cases[1]) != 2:
-                chk.ob("C12.R1-host-rule", "host value is a two-way decision (inside a step / not)", None if T.has_opaque(hv) else False, where, found=T.show(hv)[:300])
+                chk.ob("C12.R1-host-rule", "host value is a two-way decision (inside a step / not)", None, where, found=T.show(hv)[:300])          # another algorithm (e.g. vectorised masks): not understood
             else:
                 steps = T.find(cases, lambda s: s[0] == "elem" and isinstance(s[1], tuple) and s[1] and s[1][0] == "to_numpy")
                 step = steps[0] if steps else None
